@@ -1952,7 +1952,10 @@ def dask_groupby_agg(
                     name=out_name,
                     block_index=icohort,
                     axis=axis,
-                    combine=partial(combine, agg=agg, reindex=new_reindex, keepdims=True),
+                    # only _simple_combine accepts `reindex`
+                    combine=partial(
+                        combine, agg=agg, keepdims=True, **({"reindex": new_reindex} if do_simple_combine else {})
+                    ),
                     aggregate=partial(
                         aggregate, expected_groups=cohort_index, reindex=new_reindex, keepdims=True
                     ),
